@@ -227,7 +227,11 @@ class ReadSpec(hist.Spec):
             rep = hist.report(r)
         except Exception as x:
             rep = ('raise', exc_class(x))
-        return {'er7': hist.er7(r), 'tree': deep(r), 'report': rep}
+        try:
+            full = ('ok', r.to_er7(trailing_children=True))
+        except Exception as x:
+            full = ('raise', exc_class(x))
+        return {'er7': hist.er7(r), 'er7-with-trailing-children': full, 'tree': deep(r), 'report': rep}
 
     def seg_text(self, name, content):
         fields = {}
@@ -252,7 +256,7 @@ class ReadSpec(hist.Spec):
                 res.violation('read-raises|%s|%s|%s|%s' % (op[1], op[2] if len(op) > 2 else '', self.kind, exc_class(ctx.exc)),
                               '%s: read %r after %r raises %s: %s' % (self.sid, op, list(ctx.hist), exc_class(ctx.exc), ctx.exc), point, ctx.depth)
                 return
-            for what in ('er7', 'tree', 'report'):
+            for what in ('er7', 'er7-with-trailing-children', 'tree', 'report'):
                 if b[what] != a[what]:
                     res.violation('read-writes|%s|%s|%s|%s' % (what, op[1] if op[0] == 'read' else 'root.' + op[1], self.kind, lvl),
                                   '%s: read %r after %r changed the %s: %r -> %r' % (self.sid, op, list(ctx.hist), what,
